@@ -315,6 +315,14 @@ func exec(spec string) (res engine.Result) {
 		o := runSlip(spec[4:], 1000000)
 		res.Outcome = "val=" + o.val + " trace=" + strings.Join(o.trace, ",") + " err=" + o.err.String()
 		return
+	case strings.HasPrefix(spec, "count:"):
+		// count:<coreFrom>:<spine 0|1>:<dev> - size of an enumeration (development aid)
+		var cf, sp, dev int
+		_, _ = fmt.Sscanf(spec, "count:%d:%d:%d", &cf, &sp, &dev)
+		n := 0
+		newGenerator(genOpts{coreFrom: cf, spine: sp == 1}).roots(dev, func(string) { n++ })
+		res.Outcome = fmt.Sprint(n)
+		return
 	case strings.HasPrefix(spec, "show:"):
 		t, err := parseTerm(spec[5:])
 		if err != nil {
